@@ -6,7 +6,7 @@ HINV = ["Ledger", "OnePlace"]
 
 def hconsts(cbs=2, enq=3, inv=1, ops=(), cbshapes=(1, 2, 3, 4, 5, 6, 7), argshapes=(1, 2, 3, 4, 5, 6, 7), predshapes=(2, 3, 4, 5, 6), counts=(), filters=0, fprotos=()):
     return {"MaxCbs": cbs, "MaxEnq": enq, "MaxInv": inv, "Ops": set(ops), "CbShapes": set(cbshapes), "ArgShapes": set(argshapes), "PredShapes": set(predshapes),
-            "Counts": set(counts), "MaxFilters": filters, "FilterProtos": set(fprotos)}
+            "Counts": set(c if c >= 0 else 100 - c for c in counts), "MaxFilters": filters, "FilterProtos": set(fprotos)}
 
 
 def hworld(name, kind, threading=1, fill="0xA5", fraction=1.0, compiler="g++", std="c++11", opt="-O1", only_tags=None, hfilter=0):
